@@ -1,7 +1,7 @@
 """C11 — writes are applied exactly once, one at a time, in submission order.  (DESIGN §4 C11)"""
 from core import (site_effects, is_effectful, variant_edges, enum_paths, path_atoms, path_calls, path_return, ret_variant, same_value, strip_site, fmt,
                   root_calls, subexprs, is_call_to, classify_external, field_path, mentions)
-from ackmodel import AckModel
+from ackmodel import AckModel, thread_roots
 
 WITNESSES = ['W4DonePrivate', 'W6ExecutorUnreachable']
 LEVEL = "proof"
@@ -30,7 +30,7 @@ def run(ctx):
             if g.startswith("crossbeam_channel::Receiver<") and A.pair_adt in g:
                 clones.append(f.where(bb))
     ctx.check(not clones, "R11.1", "receiver-never-cloned", "the command receiver is never cloned (single consumer)", detail=str(clones))
-    recv_fns = sorted({f.name for f, bb, t, m in A.recv_sites})
+    recv_fns = sorted(set().union(*[thread_roots(F, f.name, spawn) for f, bb, t, m in A.recv_sites])) if A.recv_sites else []
     ctx.floor("R11.1", "receive sites on the command channel", len(A.recv_sites), 2)
     ctx.check(len(recv_fns) == 1 and recv_fns[0] in spawn, "R11.1", "one-consumer-thread",
               "all receives from the command channel happen in one spawned closure (the worker)", detail=str(recv_fns))
@@ -102,7 +102,7 @@ def run(ctx):
     for h in sorted(handlers):
         cs = sorted({g.name for n, g in F.fns.items() for bb, t in g.calls() if t.get("rpath") == h})
         ctx.check(only_from_worker(h), "R11.5", "%s|only-worker-calls" % h, "a command handler is called only from the worker loop (directly or from another handler)", F.fn(h).where(), str(cs))
-    ctx.floor("R11.5", "command handlers", len(handlers), 4)
+    ctx.floor("R11.5", "command handlers", len(handlers), 3)
 
     # ---- R11.6 a delete is never answered on the spot: it is always queued behind what was submitted before it
     import c04
@@ -143,7 +143,7 @@ def run(ctx):
 def find_worker(ctx, A):
     F = ctx.facts
     spawn = F.spawn_closures()
-    recv_fns = sorted({f.name for f, bb, t, m in A.recv_sites})
+    recv_fns = sorted(set().union(*[thread_roots(F, f.name, spawn) for f, bb, t, m in A.recv_sites])) if A.recv_sites else []
     if len(recv_fns) != 1 or recv_fns[0] not in spawn:
         return None
     return F.fn(recv_fns[0])
@@ -154,7 +154,7 @@ def worker_loop(ctx, A, W, RULE, drain_liveness=False):
     F = ctx.facts
     spawn = F.spawn_closures()
     # ---- R11.3 worker loop -------------------------------------------------------------------------
-    recv_blocks = [bb for f, bb, t, m in A.recv_sites if m == "recv"]
+    recv_blocks = [bb for f, bb, t, m in A.recv_sites if m == "recv" and f is W]
     ctx.check(len(recv_blocks) == 1, RULE, "%s|one-dequeue-point" % W.name, "the worker has one dequeue point for normal processing", W.where())
     if len(recv_blocks) != 1:
         return None
@@ -173,8 +173,19 @@ def worker_loop(ctx, A, W, RULE, drain_liveness=False):
     cmd_variants = set()
     bad = []
     handlers = set()
-    drain_sites = [bb for f, bb, t, m in A.recv_sites if m in ("iter_next", "iter_for_each") and f is W]
-    foreach_sites = [bb for f, bb, t, m in A.recv_sites if m == "iter_for_each" and f is W]
+    # drain sites: in the worker itself, or in a helper function it calls (the call is then the drain site of the loop)
+    all_drains = [(f, bb, m) for f, bb, t, m in A.recv_sites if m in ("iter_next", "iter_for_each")]
+    drain_helpers = {f.name for f, bb, m in all_drains if f is not W}
+    changed = True
+    while changed:
+        changed = False
+        for n_, g_ in F.fns.items():
+            if n_ not in drain_helpers and g_ is not W and g_.kind != "Closure" and any(t_.get("rpath") in drain_helpers for b_, t_ in g_.calls()):
+                drain_helpers.add(n_)
+                changed = True
+    drain_sites = [bb for f, bb, m in all_drains if f is W] + [b_ for b_, t_ in W.calls() if t_.get("rpath") in drain_helpers]
+    foreach_sites = [(f, bb) for f, bb, m in all_drains if m == "iter_for_each"]
+    next_sites = [(f, bb) for f, bb, m in all_drains if m == "iter_next"]
     for p in paths:
         atoms = path_atoms(W, p)
         okatom = [a for a in atoms if a[0] == "enum" and strip_site(a[1]) == strip_site(rres)]
@@ -245,10 +256,10 @@ def worker_loop(ctx, A, W, RULE, drain_liveness=False):
     ctx.check(not bad and paths, RULE, "%s|one-handler-one-ack-per-command" % W.name,
               "per dequeued command: exactly one handler, run on the worker, then exactly one completion of that command's acknowledgement with the handler's status; Shutdown acknowledges itself then drains with ShuttingDown (%d loop paths)" % len(paths),
               W.where(R), "; ".join("%s via %s" % x for x in bad[:3]))
-    for db in foreach_sites:
+    for DW, db in foreach_sites:
         # drain written as receiver.iter().for_each(|pair| ..): on every path of the closure the received pair's own
         # acknowledgement is completed exactly once, with ShuttingDown
-        clo = W.op_origin(W.term(db)["args"][1])
+        clo = DW.op_origin(DW.term(db)["args"][1])
         c = F.fn(clo[1]) if clo[0] == "agg" else None
         okc = c is not None
         n_paths = 0
@@ -260,28 +271,29 @@ def worker_loop(ctx, A, W, RULE, drain_liveness=False):
                 if len(ds) != 1 or not same_value(ds[0].args[0], ("field", ("param", 2), "acknowledgement")) or not (ds[0].args[1][0] == "agg" and ds[0].args[1][2] == "ShuttingDown"):
                     okc = False
         ctx.check(okc and n_paths >= 1, RULE, "%s|every-drained-command-answered" % W.name,
-                  "every command received while draining is completed (on its own acknowledgement) before the next receive", W.where(db))
-    for db in [d for d in drain_sites if d not in foreach_sites]:
-        t = W.term(db)
-        ve = variant_edges(W, t["target"]) if t.get("target") is not None else None
+                  "every command received while draining is completed (on its own acknowledgement) before the next receive", DW.where(db))
+    for DW, db in next_sites:
+        t = DW.term(db)
+        ve = variant_edges(DW, t["target"]) if t.get("target") is not None else None
         some = [tgt for n, tgt in ve[1] if n == "Some"] if ve else []
-        dres = W.origin_call(db, t)
+        dres = DW.origin_call(db, t)
         done_blocks = []
-        for b, tt in W.calls():
+        for b, tt in DW.calls():
             if tt.get("rpath") in A.done_fns:
-                a0 = W.op_origin(tt["args"][0])
-                if any(strip_site(c) == strip_site(dres) for c in root_calls(a0)):
+                a0 = DW.op_origin(tt["args"][0])
+                st0 = DW.op_origin(tt["args"][1])
+                if any(strip_site(c) == strip_site(dres) for c in root_calls(a0)) and (DW is W or (st0[0] == "agg" and st0[2] == "ShuttingDown")):
                     done_blocks.append(b)
-        ctx.check(bool(some) and bool(done_blocks) and all(W.must_pass([s], done_blocks, targets=set(W.return_blocks()) | {db}) for s in some),
+        ctx.check(bool(some) and bool(done_blocks) and all(DW.must_pass([s], done_blocks, targets=set(DW.return_blocks()) | {db}) for s in some),
                   RULE, "%s|every-drained-command-answered" % W.name,
-                  "every command received while draining is completed (on its own acknowledgement) before the next receive", W.where(db))
+                  "every command received while draining is completed (on its own acknowledgement) before the next receive", DW.where(db))
     if drain_liveness:
-        for db in [d for d in drain_sites if d not in foreach_sites]:
-            t = W.term(db)
-            ve = variant_edges(W, t["target"]) if t.get("target") is not None else None
+        for DW, db in next_sites:
+            t = DW.term(db)
+            ve = variant_edges(DW, t["target"]) if t.get("target") is not None else None
             some = [tgt for n, tgt in ve[1] if n == "Some"] if ve else []
-            ctx.check(bool(some) and all(W.must_pass([s], [db]) for s in some), RULE, "%s|drain-exits-only-on-disconnect" % W.name,
-                      "the drain loop leaves only when the channel reports disconnection: every later command is received and answered", W.where(db))
+            ctx.check(bool(some) and all(DW.must_pass([s], [db]) for s in some), RULE, "%s|drain-exits-only-on-disconnect" % W.name,
+                      "the drain loop leaves only when the channel reports disconnection: every later command is received and answered", DW.where(db))
         ctx.check(len(drain_sites) >= 1, RULE, "%s|drain-exists" % W.name, "the Shutdown arm drains the queue", W.where())
     allv = set()
     for name, adt in F.adts.items():
